@@ -48,9 +48,19 @@ def _split_seg(segs):
     return out
 
 
+def _piece_width(piece):
+    return 36 if piece[0] == 'uuidh' else 32
+
+
 def _uuid_piece_eq(piece, chars):
-    """uuid piece vs 32 concrete chars"""
+    """uuid piece vs concrete chars (32 hex digits, or the 36-char hyphenated form for a 'uuidh' piece)"""
     s = ''.join(chars)
+    if piece[0] == 'uuidh':
+        if len(s) != 36 or any(s[k] != '-' for k in (8, 13, 18, 23)):
+            return False
+        s = s.replace('-', '')
+        if len(s) != 32:
+            return False
     if not all(c in HEX for c in s):
         return False
     return piece[1] == int(s, 16)
@@ -99,8 +109,8 @@ def seg_eq(a, b):
     if _has_num(a) or _has_num(b):
         return seg_eq_num(a, b)
     ua, ub = _split_seg(a), _split_seg(b)
-    la = sum(1 if isinstance(x, str) else 32 for x in ua)
-    lb = sum(1 if isinstance(x, str) else 32 for x in ub)
+    la = sum(1 if isinstance(x, str) else _piece_width(x) for x in ua)
+    lb = sum(1 if isinstance(x, str) else _piece_width(x) for x in ub)
     if la != lb:
         return False
     res = True
@@ -113,23 +123,28 @@ def seg_eq(a, b):
             i += 1
             j += 1
         elif not isinstance(x, str) and not isinstance(y, str):
+            if x[0] != y[0]:
+                # a simple and a hyphenated rendering at the same position: the lengths of what follows differ
+                raise Unsupported('misaligned uuid pieces in string comparison')
             res = z_and(res, x[1] == y[1])
             i += 1
             j += 1
         elif isinstance(x, str):
-            chunk = ub and ua[i:i + 32]
-            if len(chunk) < 32 or not all(isinstance(c, str) for c in chunk):
+            wd = _piece_width(y)
+            chunk = ua[i:i + wd]
+            if len(chunk) < wd or not all(isinstance(c, str) for c in chunk):
                 raise Unsupported('misaligned uuid pieces in string comparison')
             res = z_and(res, _uuid_piece_eq(y, chunk))
-            i += 32
+            i += wd
             j += 1
         else:
-            chunk = ub[j:j + 32]
-            if len(chunk) < 32 or not all(isinstance(c, str) for c in chunk):
+            wd = _piece_width(x)
+            chunk = ub[j:j + wd]
+            if len(chunk) < wd or not all(isinstance(c, str) for c in chunk):
                 raise Unsupported('misaligned uuid pieces in string comparison')
             res = z_and(res, _uuid_piece_eq(x, chunk))
             i += 1
-            j += 32
+            j += wd
         if res is False:
             return False
     return res
@@ -884,8 +899,8 @@ def uuid_parse(I, s):
     if isinstance(s, SegStr) and _has_num(s.segs):
         return Err(Opaque('uuid::Error'))
     if isinstance(s, SegStr):
-        if len(s.segs) == 1 and not isinstance(s.segs[0], str) and s.segs[0][0] == 'uuid':
-            return Ok(s.segs[0][1])
+        if len(s.segs) == 1 and not isinstance(s.segs[0], str) and s.segs[0][0] in ('uuid', 'uuidh'):
+            return Ok(s.segs[0][1])      # Uuid::parse_str accepts the simple and the hyphenated form
         if all(isinstance(x, str) for x in s.segs):
             return uuid_parse(I, ''.join(s.segs))
         return Err(Opaque('uuid::Error'))   # literal text mixed with a uuid piece never has a valid uuid length/shape
